@@ -156,6 +156,11 @@ func filterFamily() []world.FilterSpec {
 }
 
 func randFilter(rng *rand.Rand) world.FilterSpec {
+	if GenIdx%7 == 3 {
+		// an application whose filters all come from one small closure factory:
+		// the same function literal, different captured values
+		return world.FilterSpec{Op: "fn", K: pick(rng, "app", "app", "tier"), V: pick(rng, "a", "b", "x", "y")}
+	}
 	if rng.Intn(3) == 0 {
 		return randFilterTerm(rng, 2)
 	}
